@@ -87,7 +87,7 @@ def make_case(seed, tier):
     knobs = gen.Knobs.thorough() if (tier == 'thorough' and r.random() < 0.5) else gen.Knobs.quick()
     if r.random() < 0.3:
         knobs.items, knobs.members = 3, 4
-    g = gen.WildGen(seed, knobs, typedefs=r.random() < 0.5, param_use=0.2, this_use=0.05, overloads=0.25, reopen_ns=0.2)
+    g = gen.WildGen(seed, knobs, typedefs=r.random() < 0.5, param_use=0.2, this_use=0.05, overloads=0.25, reopen_ns=0.2, ns_namesakes=0.2, enum_namesakes=0.2)
     return g.module()
 
 
